@@ -1,9 +1,215 @@
-import LLTD.Model.Block
-import LLTD.Spec.Block
+/-
+  C02 — Only well-formed, solicited, bounded frames ever leave the responder.
+  Every frame shape the model can transmit, checked with the independent decoder; which requests cause
+  transmits; how many.  Determinism clause: the model has no input that carries the content of freshly
+  allocated memory (transmit buffers are built from the request, the state and the attributes only), so the
+  clause is structural in the model; that the C code zero-fills before it builds is what the two-poison
+  correspondence run of this check observes.
+-/
+import LLTD.Lemmas.Obs
+import LLTD.Lemmas.Safe
+import LLTD.Props.C06
+import LLTD.Props.C07
 
 namespace LLTD.C02
 open LLTD LLTD.Spec
 
-theorem placeholder_layout : X.sizeofDemux = 32 := by decide
+/-- the Hello is a well-formed LLTD frame: parses to its end marker, host identifier first, legal lengths, no type twice -/
+theorem hello_wellFormed (c : Cfg) (g : Glob) (gen tos : Nat) (cur app : Mac) (hc : CfgOk c) (hmac : c.failMac = false)
+    (h1 : cur.length = 6) (h2 : app.length = 6) :
+    wellFormed c.mac c.mtu (helloFrame c g gen tos cur app) = true := by
+  have hm := ourMac_length c hc
+  have hown : c.ourMac = c.mac := by simp [Cfg.ourMac, hmac]
+  have hlen := helloFrame_length c g gen tos cur app hc h1 h2
+  have htl := helloTlvs_length_le c g hc
+  have hpos := encodeTlvs_length_pos (helloProps c g)
+  rw [← helloTlvs_eq] at hpos
+  have hb : decodeBase (helloFrame c g gen tos cur app) =
+      some { ethDst := bcast, ethSrc := c.ourMac, etherType := 0x88D9, version := 1, tos := tos, reserved := 0, opcode := X.opHello,
+             realDst := bcast, realSrc := c.ourMac, seq := 0 % 65536 } := by
+    unfold helloFrame
+    rw [List.append_assoc]
+    exact decodeBase_lltdHeader 0 bcast c.ourMac bcast c.ourMac 0 X.opHello tos _ rfl hm rfl hm
+  unfold wellFormed
+  rw [hb]
+  have hle : (helloFrame c g gen tos cur app).length ≤ c.mtu := by rw [hlen]; have := hc.mtuLo; omega
+  simp only [decide_eq_true hle, hown, X.opHello_val, beq_self_eq_true, Bool.true_and, Bool.and_true]
+  have hne : ¬((1 : Nat) = 3 ∨ (1 : Nat) = 4 ∨ (1 : Nat) = 5) := by omega
+  simp only [if_neg hne, show ¬ ((1 : Nat) = 7) by omega, show ¬ ((1 : Nat) = 12) by omega, if_false, if_true]
+  -- the property list
+  unfold helloWellFormed
+  have hge : (helloFrame c g gen tos cur app).length ≥ 47 := by rw [hlen]; omega
+  have hdrop : (helloFrame c g gen tos cur app).drop 46 = helloTlvs c g := by
+    unfold helloFrame
+    have h46 : (lltdHeader 0 bcast c.ourMac bcast c.ourMac 0 X.opHello tos ++ helloHeader gen cur app).length = 46 := by
+      rw [List.length_append, lltdHeader_length _ _ _ _ _ _ _ _ rfl hm rfl hm]; simp [helloHeader, h1, h2]
+    rw [← h46, List.drop_left]
+  rw [hdrop, parse_helloTlvs c g _ (by omega), decide_eq_true hge]
+  simp only [Bool.true_and, helloProps_lengths c g hc, helloTypes_noDup c g, Bool.and_true]
+  unfold helloProps
+  simp
+
+/-- a Probe/Train frame built by the model is a well-formed 32-byte frame with the responder as real source -/
+theorem probe_wellFormed (c : Cfg) (src dst : Mac) (ty : Nat) (hc : CfgOk c) (hmac : c.failMac = false)
+    (h1 : src.length = 6) (h2 : dst.length = 6) : wellFormed c.mac c.mtu (C06.probeFrame c src dst ty) = true := by
+  have hm := ourMac_length c hc
+  have hown : c.ourMac = c.mac := by simp [Cfg.ourMac, hmac]
+  have hb := decodeBase_lltdHeader 0 dst src dst c.ourMac 0 (if ty = 1 then X.opProbe else X.opTrain) X.tosDiscovery [] h2 h1 h2 hm
+  rw [List.append_nil] at hb
+  have hl := lltdHeader_length 0 dst src dst c.ourMac 0 (if ty = 1 then X.opProbe else X.opTrain) X.tosDiscovery h2 h1 h2 hm
+  unfold wellFormed C06.probeFrame
+  rw [hb, hl]
+  have : 32 ≤ c.mtu := by have := hc.mtuLo; omega
+  by_cases ht : ty = 1 <;> simp [ht, hown, this]
+
+theorem ack_wellFormed (c : Cfg) (st : St) (hc : CfgOk c) (hmac : c.failMac = false) (hi : St.Inv st) :
+    wellFormed c.mac c.mtu (C06.ackFrame c st) = true := by
+  have hm := ourMac_length c hc
+  have hown : c.ourMac = c.mac := by simp [Cfg.ourMac, hmac]
+  have hb := decodeBase_lltdHeader 0 st.mapperApparent c.ourMac st.mapperReal c.ourMac st.seq X.opAck X.tosDiscovery [] hi.app hm hi.real hm
+  rw [List.append_nil] at hb
+  have hl := lltdHeader_length 0 st.mapperApparent c.ourMac st.mapperReal c.ourMac st.seq X.opAck X.tosDiscovery hi.app hm hi.real hm
+  unfold wellFormed C06.ackFrame
+  rw [hb, hl]
+  have : 32 ≤ c.mtu := by have := hc.mtuLo; omega
+  simp [hown, this]
+
+theorem respDest_len (img : List Nat) (h : ImgOk img) : (respDest img).length = 6 := by
+  unfold respDest; split
+  · exact fRealSrc_len img h
+  · rfl
+
+theorem obsWire_length (o : Obs) (h : ObsOk o) : (obsWire o).length = 20 := by
+  simp [obsWire, h.r, h.s, h.d]
+
+theorem flatMap_obsWire_length (l : List Obs) (h : ∀ o ∈ l, ObsOk o) : (l.flatMap obsWire).length = 20 * l.length := by
+  induction l with
+  | nil => rfl
+  | cons o os ih =>
+    rw [List.flatMap_cons, List.length_append, obsWire_length o (h o (by simp)), ih (fun x hx => h x (by simp [hx]))]
+    simp only [List.length_cons]; omega
+
+/-- a QueryResp built by the model has exactly the length its descriptor count prescribes and fits the MTU -/
+theorem query_wellFormed (c : Cfg) (img : List Nat) (seq n : Nat) (more : Bool) (obs : List Obs) (hc : CfgOk c) (hmac : c.failMac = false)
+    (him : ImgOk img) (hobs : ∀ o ∈ obs, ObsOk o) (hn : obs.length = n) (hfit : 34 + 20 * n ≤ c.mtu) (hcap : n < 16384) :
+    wellFormed c.mac c.mtu (queryFrame c img seq n more (obs.flatMap obsWire)) = true := by
+  have hm := ourMac_length c hc
+  have hown : c.ourMac = c.mac := by simp [Cfg.ourMac, hmac]
+  have hd := respDest_len img him
+  have hb := decodeBase_lltdHeader 0 (respDest img) c.ourMac (respDest img) c.ourMac seq X.opQueryResp X.tosDiscovery
+    (be 2 (n ||| (if more then 0x8000 else 0)) ++ obs.flatMap obsWire) hd hm hd hm
+  have hl := lltdHeader_length 0 (respDest img) c.ourMac (respDest img) c.ourMac seq X.opQueryResp X.tosDiscovery hd hm hd hm
+  have hlen : (queryFrame c img seq n more (obs.flatMap obsWire)).length = 34 + 20 * n := by
+    unfold queryFrame
+    rw [List.length_append, List.length_append, hl, be_length, flatMap_obsWire_length obs hobs, hn]
+  have hfield : unbe (slice (queryFrame c img seq n more (obs.flatMap obsWire)) 32 2) % 16384 = n := by
+    unfold queryFrame
+    rw [List.append_assoc, slice_append_skip _ _ 32 2 (by rw [hl]; exact Nat.le_refl _), hl, Nat.sub_self]
+    rw [slice_append_left _ _ 0 2 (by simp)]
+    have : slice (be 2 (n ||| (if more then 0x8000 else 0))) 0 2 = be 2 (n ||| (if more then 0x8000 else 0)) := by
+      unfold slice; simp [List.take_of_length_le]
+    rw [this]
+    cases more with
+    | false =>
+      simp only [Bool.false_eq_true, if_false, Nat.or_zero]
+      rw [unbe_be_of_lt 2 n (by omega)]; omega
+    | true =>
+      simp only [if_true]
+      have key := Nat.two_pow_add_eq_or_of_lt (i := 15) (b := n) (by omega) 1
+      have e : (0x8000 : Nat) = 2 ^ 15 * 1 := by decide
+      rw [e, Nat.or_comm, ← key, unbe_be_of_lt 2 _ (by omega)]; omega
+  unfold wellFormed
+  have hq : queryFrame c img seq n more (obs.flatMap obsWire) =
+      lltdHeader 0 (respDest img) c.ourMac (respDest img) c.ourMac seq X.opQueryResp X.tosDiscovery ++
+        (be 2 (n ||| (if more then 0x8000 else 0)) ++ obs.flatMap obsWire) := by
+    unfold queryFrame; rw [List.append_assoc]
+  have hb' := hb
+  rw [← hq] at hb'
+  rw [hb']
+  have hle : 34 + 20 * n ≤ c.mtu := hfit
+  simp [hown, hlen, hfield, hle]
+
+/-- a QueryLargeTlvResp built by the model has exactly the length its length field prescribes -/
+theorem large_wellFormed (c : Cfg) (dest : Mac) (seq lenField : Nat) (payload : List Nat) (hc : CfgOk c) (hmac : c.failMac = false)
+    (hd : dest.length = 6) (hf : lenField < 65536) (hp : payload.length = lenField % 16384) (hfit : 34 + payload.length ≤ c.mtu) :
+    wellFormed c.mac c.mtu (largeFrame c dest seq lenField payload) = true := by
+  have hm := ourMac_length c hc
+  have hown : c.ourMac = c.mac := by simp [Cfg.ourMac, hmac]
+  have hb := decodeBase_lltdHeader 0 dest c.ourMac dest c.ourMac seq X.opQltlvResp X.tosDiscovery (be 2 lenField ++ payload) hd hm hd hm
+  have hl := lltdHeader_length 0 dest c.ourMac dest c.ourMac seq X.opQltlvResp X.tosDiscovery hd hm hd hm
+  have hlen : (largeFrame c dest seq lenField payload).length = 34 + payload.length := by
+    unfold largeFrame; rw [List.length_append, List.length_append, hl, be_length]
+  have hfield : unbe (slice (largeFrame c dest seq lenField payload) 32 2) = lenField := by
+    unfold largeFrame
+    rw [List.append_assoc, slice_append_skip _ _ 32 2 (by rw [hl]; exact Nat.le_refl _), hl, Nat.sub_self, slice_append_left _ _ 0 2 (by simp)]
+    have : slice (be 2 lenField) 0 2 = be 2 lenField := by unfold slice; simp [List.take_of_length_le]
+    rw [this, unbe_be_of_lt 2 _ (by omega)]
+  have hq : largeFrame c dest seq lenField payload =
+      lltdHeader 0 dest c.ourMac dest c.ourMac seq X.opQltlvResp X.tosDiscovery ++ (be 2 lenField ++ payload) := by
+    unfold largeFrame; rw [List.append_assoc]
+  unfold wellFormed
+  have hb' := hb
+  rw [← hq] at hb'
+  rw [hb']
+  simp [hown, hlen, hfield, ← hp, hfit]
+
+/-- frames are sent only in reaction to a request: a frame that is no Discover / Emit / Query / QueryLargeTlv of a
+    discovery service causes no transmit (Hello, Probe, Train, ACK, responses, Reset, Charge, Flat, unknown opcodes,
+    and every opcode of every other service) -/
+theorem unsolicited_silent (c : Cfg) (g : Glob) (w : World) (st : St) (img : List Nat)
+    (h : ¬ (fTos img = 0 ∧ (fOpcode img = 0 ∨ fOpcode img = 2 ∨ fOpcode img = 6 ∨ fOpcode img = 11)) ∧
+         ¬ (fTos img = 1 ∧ (fOpcode img = 0 ∨ fOpcode img = 11))) :
+    C06.sendCount (parseFrameSt c g w st img).fx = 0 := by
+  obtain ⟨h0, h1⟩ := h
+  by_cases t0 : fTos img = 0
+  · have hops : fOpcode img ≠ 0 ∧ fOpcode img ≠ 2 ∧ fOpcode img ≠ 6 ∧ fOpcode img ≠ 11 := by
+      refine ⟨?_, ?_, ?_, ?_⟩ <;> (intro e; exact h0 ⟨t0, by simp [e]⟩)
+    obtain ⟨n0, n2, n6, n11⟩ := hops
+    by_cases hp : fOpcode img = 3 ∨ fOpcode img = 4
+    · have : (parseFrameSt c g w st img).fx = (parseProbe c w st img).fx := by
+        simp [parseFrameSt, t0, n0, n2, hp]
+      rw [this]
+      unfold parseProbe; simp only []
+      repeat' split
+      all_goals rfl
+    · have h3 : fOpcode img ≠ 3 := fun e => hp (Or.inl e)
+      have h4 : fOpcode img ≠ 4 := fun e => hp (Or.inr e)
+      by_cases h8 : fOpcode img = 8
+      · simp [parseFrameSt, t0, h8, C06.sendCount]
+      · simp [parseFrameSt, t0, n0, n2, h3, h4, n6, n11, h8, C06.sendCount]
+  · by_cases t1 : fTos img = 1
+    · have hops : fOpcode img ≠ 0 ∧ fOpcode img ≠ 11 := by
+        refine ⟨?_, ?_⟩ <;> (intro e; exact h1 ⟨t1, by simp [e]⟩)
+      by_cases h8 : fOpcode img = 8
+      · simp [parseFrameSt, t1, h8, C06.sendCount]
+      · simp [parseFrameSt, t1, hops.1, hops.2, h8, C06.sendCount]
+    · simp [parseFrameSt, t0, t1, C06.sendCount]
+
+/-- at most one frame per Discover / Query / QueryLargeTlv -/
+theorem answerHello_count (c : Cfg) (g : Glob) (w : World) (st : St) (img : List Nat) : C06.sendCount (answerHello c g w st img).fx ≤ 1 := by
+  unfold answerHello; simp only []
+  repeat' split
+  all_goals simp [C06.sendCount, sendFx]
+
+theorem parseQuery_count (c : Cfg) (w : World) (st : St) (img : List Nat) : C06.sendCount (parseQuery c w st img).fx ≤ 1 := by
+  unfold parseQuery; simp only []
+  repeat' split
+  all_goals simp [C06.sendCount, sendFx]
+
+theorem sendLarge_count (c : Cfg) (w : World) (st : St) (img : List Nat) (d : Option (List Nat)) (off : Nat) :
+    C06.sendCount (sendLargeTlvResponse c w st img d off).fx ≤ 1 := by
+  unfold sendLargeTlvResponse; simp only []
+  repeat' split
+  all_goals simp [C06.sendCount, sendFx]
+
+theorem parseQueryLargeTlv_count (c : Cfg) (g : Glob) (w : World) (st : St) (img : List Nat) :
+    C06.sendCount (parseQueryLargeTlv c g w st img).fx ≤ 1 := by
+  unfold parseQueryLargeTlv qltlvIcon qltlvFname qltlvHwid
+  simp only []
+  repeat' split
+  all_goals first | (simp [C06.sendCount]; done) | exact sendLarge_count _ _ _ _ _ _ | (simp only []; exact sendLarge_count _ _ _ _ _ _)
+
+/-- non-vacuity: the well-formedness predicate rejects a frame with a wrong real source -/
+example : wellFormed [2,0,0,0,0,1] 1500 ([255,255,255,255,255,255, 2,0,0,0,0,1, 0x88,0xd9, 1,0,0,4, 2,0,0,0,0,9, 2,0,0,0,0,7, 0,0]) = false := by decide
 
 end LLTD.C02
